@@ -19,6 +19,7 @@ pub mod c15;
 pub mod c16;
 pub mod c17;
 pub mod c18;
+pub mod c19;
 
 pub struct Prop {
     pub id: &'static str,
@@ -46,5 +47,6 @@ pub fn all() -> Vec<Prop> {
         Prop { id: "C16", run: c16::run, replay: c16::replay },
         Prop { id: "C17", run: c17::run, replay: c17::replay },
         Prop { id: "C18", run: c18::run, replay: c18::replay },
+        Prop { id: "C19", run: c19::run, replay: c19::replay },
     ]
 }
